@@ -15,6 +15,8 @@ RP = rp_obj.ResourceProvider
 CONSUMER = consumer_obj.Consumer
 ALLOC = alloc_obj.Allocation
 INV = inv_obj.Inventory
+from placement.objects import trait as _trait_obj
+TRAIT = _trait_obj.Trait
 
 
 class CapRow(object):
